@@ -395,7 +395,8 @@ def parse_radec(src_raj: float, src_dej: float) -> SkyCoord:
     de, ami = divmod(abs(src_dej), 10000)
     ami, ase = divmod(ami, 100)
 
-    radec_str = f"{int(ho)} {int(mi)} {se} {sign}{int(de)} {int(ami)} {ase}"
+    # Fixed notation: str() of seconds below 1e-4 is in exponent form ("2e-05")
+    radec_str = f"{int(ho)} {int(mi)} {se:.10f} {sign}{int(de)} {int(ami)} {ase:.10f}"
     return SkyCoord(radec_str, unit=(units.hourangle, units.deg))
 
 
